@@ -2,18 +2,25 @@
 """import_seeded.py <PROP> [X...] : copies /tmp/out-<PROP>/<X>.{diff,md},<X>_demo_test.go into /verif/seeded/<PROP>-<X>/"""
 import sys, os, re, json, shutil
 prop = sys.argv[1]
-wave5 = "--wave5" in sys.argv
+wave6 = "--wave6" in sys.argv
+wave5 = "--wave5" in sys.argv or wave6
 wave4 = "--wave4" in sys.argv or wave5
 wave3 = "--wave3" in sys.argv or wave4
 xs = [a for a in sys.argv[2:] if not a.startswith("--")] or ["A","B","C"]
 for x0 in xs:
     x = x0
-    src = (f"/tmp/o5-{prop}" if wave5 else f"/tmp/o4-{prop}" if wave4 else f"/tmp/o3-{prop}") if wave3 else f"/tmp/out-{prop}"
+    src = (f"/tmp/o6-{prop}" if wave6 else f"/tmp/o5-{prop}" if wave5 else f"/tmp/o4-{prop}" if wave4 else f"/tmp/o3-{prop}") if wave3 else f"/tmp/out-{prop}"
     if not os.path.exists(f"{src}/{x}.diff") or not os.path.exists(f"{src}/{x}_demo_test.go"):
         print("skip", prop, x); continue
     name = {"A":"D","B":"E","C":"F"}[x] if wave3 else x
     if wave4 and os.path.exists(f"/verif/seeded/{prop}-D") and not os.path.exists(f"/verif/seeded/{prop}-D/.wave4"):
         name = {"A":"G","B":"H","C":"I"}[x]
+    if wave6:
+        used = sorted(n.split("-")[1] for n in os.listdir("/verif/seeded") if n.startswith(prop + "-"))
+        base = ord(max(used)) + 1 if used else ord("A")
+        if not hasattr(sys.modules[__name__], "_base"):
+            sys.modules[__name__]._base = base
+        name = chr(sys.modules[__name__]._base + "ABC".index(x))
     d = f"/verif/seeded/{prop}-{name}"
     os.makedirs(d, exist_ok=True)
     shutil.copy(f"{src}/{x}.diff", f"{d}/patch.diff")
@@ -33,7 +40,7 @@ for x0 in xs:
     tm = re.search(r"-run\s+(\S+)", first)
     run = f"go test -vet=off -count=1 {'-race ' if race else ''}-run '{tm.group(1) if tm else 'Seeded'}' ."
     desc = open(f"{src}/{x}.md").read() if os.path.exists(f"{src}/{x}.md") else ""
-    meta = {"property": prop, "id": f"{prop}-{name}", "wave": 5 if wave5 else 4 if wave4 else 3 if wave3 else (2 if prop in ("C01","C06","C10","C12","C16","C17") else 1), "demo_file": "demo_test.go.txt", "demo_dir": pkgdir, "demo_run": run,
+    meta = {"property": prop, "id": f"{prop}-{name}", "wave": 6 if wave6 else 5 if wave5 else 4 if wave4 else 3 if wave3 else (2 if prop in ("C01","C06","C10","C12","C16","C17") else 1), "demo_file": "demo_test.go.txt", "demo_dir": pkgdir, "demo_run": run,
             "needs_to_manifest": desc.strip()[:3000], "origin": "independent sub-agent given only the property text and a scratch worktree" + (" plus one-line summaries of the first-round changes and a generic description of randomized model-based testing; asked for changes such a harness is likely to miss" if wave3 else "")}
     json.dump(meta, open(f"{d}/meta.json","w"), indent=1)
     if wave4:
